@@ -221,6 +221,15 @@ def bitmap_variants(tier):
                         name = 'bDx|%d.%s.%d.%s/%s.c%d%d' % (op // 1000, source, n, ''.join(map(str, p0)),
                                                              ''.join(map(str, p1)), c0, c1)
                         out.append((name, base + d, qs, [[c0], [c1]]))
+    # the element that gives an attribute its MEANING (008023 / 008024 / 031021) present in some subsets only (it sits in a
+    # delayed replication whose count differs): a subset without it must not inherit the one of an earlier subset
+    for c0, c1 in ((1, 0), (0, 1), (0, 0)):
+        for op, meaning, marker in ((224000, BM.M23, 224255), (225000, BM.M24, 225255)):
+            d = [G.N7, G.NS, op, 101002, BM.BIT, 101000, G.Z8, meaning, marker]
+            out.append(('bDm|%d.meaning-in-replication.c%d%d' % (op // 1000, c0, c1), d,
+                        [[('bit', 0), ('bit', 1)], [('bit', 1), ('bit', 0)]], [[c0], [c1]]))
+        out.append(('bDm|204.meaning-in-replication.c%d%d' % (c0, c1), [204002, 101000, G.Z8, BM.M21, G.N7, 204000, G.NS],
+                    [[], []], [[c0], [c1]]))
     # reuse / cancel across the subset boundary: second construct recalls or cancels
     for c0, c1 in ((1, 2), (2, 1), (0, 1), (1, 0)):
         for sep in ([], [237255], [235000]):
